@@ -73,3 +73,10 @@ add('C10', 'Hypothesis generated reference sets (constructed consistent / noisy,
     'removed by use_references=False. Exploration only.',
     'Trusted: StatMech H/RT of the reference models (C01); exact reproduction only claimed for identical reference temperatures.',
     'DESIGN.md 3/C10')
+add('C01', 'Hypothesis generated mode / species parameter sets + textbook reference formulas (own Debye quadrature), Richardson derivative identities, metamorphic relations (pressure shift, verbose additivity, rigid motions/permutations); exhaustive point-group and G2 sweeps',
+    'Every mode model and every combination of modes (with references and misc models) over the stated parameter ranges: G=H-TS, F=U-TS, Cv=dU/dT, Cp=dH/dT, T dS/dT=Cp by Richardson '
+    'differences, S(P2)-S(P1)=-ln(P2/P1) with ideal-gas translation, H-U = 1 or 0, verbose contributions sum/multiply to the total under all option combinations, EoRT(+ZPE), closed '
+    'forms typed from the textbook for harmonic, quasi-RRHO, Einstein, Debye, rigid rotor, Sackur-Tetrode, ground-state degeneracy and LSR; cached vibrational/spin state after '
+    'reassignment equals a fresh object; all 13 point-group labels (exhaustive) and every G2 molecule under rigid motions and atom permutations. Exploration (finite sweeps exhaustive).',
+    'Trusted: constants (C12), vf/ref.py formulas; Debye derivative relations judged at 1e-4; the known Debye integrand defect is recognised by its exact 9 Theta/4T signature only.',
+    'DESIGN.md 3/C01')
